@@ -189,26 +189,29 @@ class Fl:
         return hash((self.ivs, self.pinf, self.ninf, self.nan, self.nz))
 
     def widen(self, new, landmarks):
-        """Widening: end-points that moved jump to the next landmark outward."""
-        j = self.join(new)
-        if j == self:
+        """Widening: end-points that moved jump to the next landmark outward (`landmarks` is a sorted list)."""
+        if new is self or new.leq(self):
             return self
+        j = self.join(new)
+        lm = landmarks
+        import bisect
         ivs = []
-        lm = sorted(set(landmarks))
         for (lo, lc, hi, hc) in j.ivs:
-            if not any(iv_sub((lo, lc, lo, True), b) or (b[0] == lo and b[1] == lc) for b in self.ivs):
-                cands = [x for x in lm if x <= lo]
-                nlo = max(cands) if cands else NINF
-                if nlo == lo and not lc:
-                    cands2 = [x for x in lm if x < lo]
-                    nlo = max(cands2) if cands2 else NINF
+            lo_stable = any((b[0] < lo or (b[0] == lo and (b[1] or not lc))) and (lo < b[2] or (lo == b[2])) for b in self.ivs)
+            hi_stable = any((hi < b[2] or (hi == b[2] and (b[3] or not hc))) and (b[0] < hi or b[0] == hi) for b in self.ivs)
+            if not lo_stable and lo != NINF:
+                i = bisect.bisect_left(lm, lo)     # first landmark >= lo
+                if i < len(lm) and lm[i] == lo and lc:
+                    nlo = lo
+                else:
+                    nlo = lm[i - 1] if i > 0 else NINF
                 lo, lc = nlo, (nlo != NINF)
-            if not any((b[2] == hi and b[3] == hc) or (hi < b[2]) for b in self.ivs if b[0] <= hi):
-                cands = [x for x in lm if x >= hi]
-                nhi = min(cands) if cands else INF
-                if nhi == hi and not hc:
-                    cands2 = [x for x in lm if x > hi]
-                    nhi = min(cands2) if cands2 else INF
+            if not hi_stable and hi != INF:
+                i = bisect.bisect_right(lm, hi)    # first landmark > hi
+                if i > 0 and lm[i - 1] == hi and hc:
+                    nhi = hi
+                else:
+                    nhi = lm[i] if i < len(lm) else INF
                 hi, hc = nhi, (nhi != INF)
             ivs.append((lo, lc, hi, hc))
         return Fl(ivs, j.pinf, j.ninf, j.nan, j.nz)
@@ -671,7 +674,7 @@ def _pow_box(a, b):
     if lo == INF:
         # every corner is +inf only at limits that are not attained by finite positive base / finite exponent
         return Fl([(Fraction(10) ** 300, False, INF, False)])
-    if a[0] == a[2] and b[0] == b[2]:
+    if (a[0] == a[2] and b[0] == b[2]) or lo == hi:
         lc = hc = True
     # finite positive base, finite non-zero exponent: strictly positive finite result (envelope semantics)
     if lo <= 0:
@@ -921,6 +924,8 @@ class In:
         return self.is_bottom() or (o.lo <= self.lo and self.hi <= o.hi)
 
     def widen(self, new, landmarks=()):
+        if new.leq(self):
+            return self
         j = self.join(new)
         lo, hi = j.lo, j.hi
         if j.lo < self.lo:
